@@ -209,10 +209,32 @@ func cluster3Scenario(out *Out, r *rand.Rand, sc int) {
 	terms := map[uint64]uint64{}
 	epoch := map[uint64]int{}
 	termEpoch := map[uint64]int{}
+	leaderOfTerm := map[uint64]uint64{}
 	termsOK := true
 	seeTerm := func(node uint64, h *regattapb.ResponseHeader) {
 		if h == nil {
 			return
+		}
+		// the header names the shard and the replica that answered, and (C19 / Raft: one leader per term) no
+		// two headers - of whatever node - name different leaders for one term
+		if tid := tableID(nodes[node-1], tname); h.ShardId != tid && tid != 0 {
+			termsOK = false
+			out.Count(fmt.Sprintf("header_shard_%d_instead_of_%d", h.ShardId, tid))
+		}
+		if h.ReplicaId != node {
+			termsOK = false
+			out.Count(fmt.Sprintf("header_replica_%d_instead_of_%d", h.ReplicaId, node))
+		}
+		if h.RaftLeaderId != 0 {
+			if l, ok := leaderOfTerm[h.RaftTerm]; ok && l != h.RaftLeaderId {
+				termsOK = false
+				out.Count(fmt.Sprintf("two_leaders_in_term_%d", h.RaftTerm))
+			}
+			leaderOfTerm[h.RaftTerm] = h.RaftLeaderId
+			if h.RaftLeaderId > 3 {
+				termsOK = false
+				out.Count(fmt.Sprintf("header_leader_%d_is_no_member", h.RaftLeaderId))
+			}
 		}
 		if termEpoch[node] != epoch[node] {
 			if h.RaftTerm < terms[node] {
